@@ -24,6 +24,8 @@ OPS = [
     {'kind': 'moment', 'dist': 'total_branch_length', 'k': 2, 'end_time': 1.5, 'center': False},
     {'kind': 'moment', 'dist': 'tree_height', 'k': 1, 'start_time': 0.5, 'end_time': 2.0},
     {'kind': 'attr', 'path': 'sfs.mean'}, {'kind': 'attr', 'path': 'fsfs.mean'}, {'kind': 'attr', 'path': 'sfs.var'},
+    {'kind': 'attr', 'path': 'sfs.cov'}, {'kind': 'attr', 'path': 'sfs.corr'}, {'kind': 'attr', 'path': 'fsfs.cov'},
+    {'kind': 'attr', 'path': 'fsfs.corr'}, {'kind': 'attr', 'path': 'tree_height.std'},
     {'kind': 'moment', 'route': 'coal', 'k': 2, 'rewards': [['TreeHeight'], ['TotalBranchLength']], 'center': True},
 ]
 
